@@ -122,7 +122,7 @@ void run_life(const LifeSpec& spec, Life& L)
       L.sweep = std::make_unique<Sweep>(lex, unit, *L.sweep_rng);
       Sweep& S = *L.sweep;
       S.exprs_unary(); T.tick(); S.exprs_binary(); T.tick(); S.exprs_other(); T.tick(); S.stmts(); T.tick(); S.directives(); T.tick();
-      S.types_and_names(); T.tick(); S.decls_and_regions(); T.tick(); S.forms(); T.tick(); S.attributes_captures_units(); T.tick();
+      S.types_and_names(); T.tick(); S.decls_and_regions(); T.tick(); S.forms(); T.tick(); S.attributes_captures_units(); T.tick(); S.unified_neighbours(); T.tick();
       std::ostringstream os;
       for (auto& m : S.made) {
          Ck ck; Sweep::run_check(m, ck);
